@@ -61,6 +61,7 @@ type RunResult struct {
 	DLog      []string       `json:"dlog,omitempty"`
 	Sig       string         `json:"sig,omitempty"`
 	Replay    string         `json:"replay,omitempty"`
+	ReplayOracle string      `json:"replay_oracle,omitempty"`
 	Minimised string         `json:"minimised,omitempty"`
 }
 
@@ -299,6 +300,7 @@ func TestSim(t *testing.T) {
 	}
 	curPath := *flagOut + ".current"
 	nViol := 0
+	seenOracle := map[string]bool{}
 	for idx := shard; idx < *flagRuns; idx += nshard {
 		if !deadline.IsZero() && time.Now().After(deadline) {
 			break
@@ -311,10 +313,7 @@ func TestSim(t *testing.T) {
 				r.Index = idx
 				r.Sub = "base"
 				if len(r.Viol) > 0 {
-					nViol++
-					if nViol <= 3 {
-						finishViolation(t, base, r)
-					}
+					handleViol(t, base, r, seenOracle, &nViol)
 				}
 				r.Scenario = nil
 				if len(r.Viol) == 0 {
@@ -344,12 +343,7 @@ func TestSim(t *testing.T) {
 				res.DLog = nil
 			}
 			if len(res.Viol) > 0 {
-				nViol++
-				if nViol <= 3 {
-					finishViolation(t, sc, res)
-				} else {
-					res.Sig = sig(res.Viol[0])
-				}
+				handleViol(t, sc, res, seenOracle, &nViol)
 			}
 			if (idx < 2 && si == 0) || *flagDump {
 				res.Scenario = sc // sample
@@ -365,9 +359,30 @@ func TestSim(t *testing.T) {
 
 func sig(v Violation) string { return v.Prop + "/" + v.Oracle }
 
+// handleViol: the first occurrence of each oracle on this worker is minimised
+// and gets a replay file (at most 8 per worker).
+func handleViol(t *testing.T, sc *Scenario, res *RunResult, seen map[string]bool, n *int) {
+	pick := -1
+	for i, v := range res.Viol {
+		if !seen[v.Oracle] {
+			pick = i
+			break
+		}
+	}
+	res.Sig = sig(res.Viol[0])
+	if pick < 0 || *n >= 8 {
+		return
+	}
+	*n++
+	seen[res.Viol[pick].Oracle] = true
+	res.Viol[0], res.Viol[pick] = res.Viol[pick], res.Viol[0]
+	finishViolation(t, sc, res)
+}
+
 // finishViolation minimises, re-executes and writes the replay file.
 func finishViolation(t *testing.T, sc *Scenario, res *RunResult) {
 	v := res.Viol[0]
+	others := append([]Violation(nil), res.Viol[1:]...)
 	res.Sig = sig(v)
 	best := sc
 	tape := res.Tape
@@ -410,7 +425,8 @@ func finishViolation(t *testing.T, sc *Scenario, res *RunResult) {
 	b, _ := json.MarshalIndent(rf, "", " ")
 	os.WriteFile(p, b, 0644)
 	res.Replay = p
-	res.Viol = []Violation{v}
+	res.ReplayOracle = v.Oracle
+	res.Viol = append([]Violation{v}, others...)
 	res.Minimised = fmt.Sprintf("files %d->%d env %d->%d faults %d->%d steps %d->%d", len(sc.Files), len(best.Files), len(sc.Env), len(best.Env), len(sc.Faults), len(best.Faults), res.Steps, r2.Steps)
 }
 
